@@ -30,6 +30,7 @@ def parseOp (line : String) : Option Op :=
   | ["get", r, a] => do pure (.get (← r.toNat?) (← a16 a))
   | ["set", r, a, v] => do pure (.set (← r.toNat?) (← a16 a) (← a8 v))
   | ["put", r, a, d] => do pure (.put (← r.toNat?) (← a16 a) (← (if d == "-" then some [] else parseHexBytes d)))
+  | ["putself", r, d, s, n] => do pure (.putself (← r.toNat?) (← a16 d) (← parseHex s) (← n.toNat?))
   | ["in", r, p] => do pure (.inp (← r.toNat?) (← a8 p))
   | ["out", r, p, v] => do pure (.out (← r.toNat?) (← a8 p) (← a8 v))
   | ["clone", r, s] => do pure (.clone (← r.toNat?) (← s.toNat?))
